@@ -51,12 +51,24 @@ class OptCase:
             return GQR(), kw
         raise ValueError(self.kind)
 
+    _toggle = [0]
+
     def run_real(self):
-        """Returns dict(ranking, offsets, dlens(list per step) , taps...)"""
+        """Returns dict(ranking, offsets, dlens(list per step) , taps...).
+        Every third case (recorded in meta['prefit'], so replays reproduce it) the optimizer object has already been
+        fitted once on other data of the same width: a fit is a function of its arguments and hyper-parameters only."""
         opt, kw = self.make_optimizer()
         n, m = self.B.shape
         k = min(n, m)
         res = {"n": n, "m": m, "k": k, "tap_unavailable": False}
+        if "prefit" not in self.meta:
+            OptCase._toggle[0] += 1
+            self.meta["prefit"] = OptCase._toggle[0] % 3 == 0
+        if self.meta["prefit"] and n >= 1:
+            try:
+                opt.fit(self.B[::-1].copy(), **{k_: (v.copy() if isinstance(v, np.ndarray) else v) for k_, v in kw.items()})
+            except Exception:
+                opt, kw = self.make_optimizer()
         Bc = self.B.copy()
         if self.kind == "qr":
             opt.fit(Bc)
@@ -117,8 +129,11 @@ class OptCase:
             return C.enc_rats(self.costs.tolist())
         return C.enc_rats([0] * n)
 
-    def req_replay(self, offsets, delta, verbose=False):
-        return f"replay{'v' if verbose else ''} {C.enc_mat(self.B)} {self.costs_tokens()} {self.cfg_tokens()} {C.enc_rat(delta)} {C.enc_nats(offsets)}"
+    def req_replay(self, offsets, deltas, verbose=False):
+        """deltas: one acceptance budget per step (a single value is repeated)"""
+        if not isinstance(deltas, (list, tuple)):
+            deltas = [deltas]
+        return f"replay{'v' if verbose else ''} {C.enc_mat(self.B)} {self.costs_tokens()} {self.cfg_tokens()} {C.enc_rats(deltas)} {C.enc_nats(offsets)}"
 
     def req_rank(self):
         return f"rank {C.enc_mat(self.B)} {self.costs_tokens()} {self.cfg_tokens()}"
